@@ -17,7 +17,9 @@ print(" ".join(out))
 PY
 )
 git -C /repo apply "$patch" || { echo "patch does not apply"; exit 2; }
-trap 'git -C /repo checkout -- . ; git -C /repo clean -fdq -- incomplete_cooperative 2>/dev/null' EXIT
+# evidence/ must only ever hold records of runs on the unchanged tree: keep it aside while /repo is patched
+evbak=$(mktemp -d); cp -a /verif/evidence/. $evbak/
+trap 'git -C /repo checkout -- . ; git -C /repo clean -fdq -- incomplete_cooperative 2>/dev/null; cp -a $evbak/. /verif/evidence/; rm -rf $evbak' EXIT
 out=$dir/check$k.log; : > $out
 echo "files: $files ; checks: $props" >> $out
 for p in $props; do
